@@ -24,6 +24,7 @@ func TestMain(m *testing.M) {
 	vh.Rule("rapid: histories of 1..6 request/response rounds on one channel (packet level, deterministic); per round a response from the grammar (empty of delivered packages, rows, several result sets with DONE(MORE), trailing DONE with COUNT/PROC/ERROR/INXACT bits, EED interleaved, final DONE by the server, a non-final DONE, or none), a packetisation (optionally with extra status bits next to EOM), an optional request sent before it or completing only after the first response packets have arrived, and a consumer strategy: NextPackage until the final DONE, or NextPackageUntil with a per-package plan of callback results (continue, true, io.EOF, another error, an error that wraps io.EOF) or a nil callback. Oracle: a model holds the expected consumer view of every round; the consumer must see exactly that (one DONE with final status, last), a callback error must come back (errors.Is) with the queue empty afterwards, nothing may be left over or duplicated into the next round; a 2 s watchdog only fires if the final DONE is missing. Non-trivial: >= 2 rounds and (the previous round ended with a server DONE(FINAL), or the callback aborted early, or the response spans several packets); distinct by the history")
 	vh.Assume("a DONE-family package with status 0 only ends a response; all packets of a response are delivered before the consumer reads (the concurrent case is C12/C13); non-informational EED only between statements")
 	vh.Rule("also: Info.DebugLogPackages is on in a quarter of the cases (every package is printed while it is sent / received)")
+	vh.Rule("also: package queues (Info.ChannelPackageQueueSize) of 0, 1, 2, 3 slots and of exactly as many slots as the response delivers packages (one less, one more), packets arriving from a goroutine of their own, consumer starting late (arrival parked on the full queue) or at once, 1..3 responses in a row: delivery model, exactly one final DONE at its end, arrival not stuck, nothing left over; enumerated for k = 1..100 DONE packages x last status x k-1..k+1 slots")
 	vh.QuietLog()
 	vh.Rule("also: a callback that cancels the context of its own call and then fails")
 	vh.Rule("also: packets of type NORMAL; responses with an ENVCHANGE whose packet size the library refuses (not a number, not a possible size), anywhere in the response, any packetisation: exactly one channel error, members in front reported once, packet size unchanged, everything else delivered with one final DONE, the next response complete")
